@@ -345,6 +345,17 @@ static std::vector<std::vector<int>> assignments(const Version& v, int nvals) {
   rec(0);
   return out;
 }
+// replay filter: "<prop>|...|w<i>|r<j>|..." -> only that writer / reader version is visited
+static int g_only_w = -1, g_only_r = -1;
+static void parse_only() {
+  if (A.only.empty()) return;
+  size_t pw = A.only.find("|w");
+  size_t pr = A.only.find("|r", pw == std::string::npos ? 0 : pw + 1);
+  if (pw != std::string::npos) g_only_w = atoi(A.only.c_str() + pw + 2);
+  if (pr != std::string::npos) g_only_r = atoi(A.only.c_str() + pr + 2);
+}
+static bool skip_w(const Version& v) { return g_only_w >= 0 && v.index != g_only_w; }
+static bool skip_r(const Version& v) { return g_only_r >= 0 && v.index != g_only_r; }
 static std::string astr(const std::vector<int>& a) { std::string s; for (int x : a) s += (char)('0' + x); return s; }
 
 // expected observation on the reader side (reference model of table evolution)
@@ -368,6 +379,7 @@ static void run_c07() {
   const int nvals = A.thorough() ? 2 : 2;
   uint64_t pairs = 0;
   for (auto& wv : g_versions) {
+    if (skip_w(wv)) continue;
     std::vector<std::vector<int>> as = assignments(wv, nvals);
     // writer bytes per (assignment, ctx) -- written once, checked against the reference encoder
     for (auto& a : as) {
@@ -387,7 +399,7 @@ static void run_c07() {
                    "{\"writer\":" + jstr(wv.desc) + ",\"got\":" + jstr(hex(wo.bytes)) + ",\"want\":" + jstr(hex(ref)) + "}");
         }
         for (auto& rv : g_versions) {
-          if (!rv.read) continue;
+          if (!rv.read || skip_r(rv)) continue;
           if (ctx != BARE && !rv.ctx_capable) continue;
           for (int rig = 0; rig < NRIG; rig++) {
             for (int prefill = 0; prefill < 2; prefill++) {
@@ -433,7 +445,7 @@ static void run_c07() {
 // ================================================================ C05 (cross-version truncation)
 static void run_c05x() {
   for (auto& wv : g_versions) {
-    if (wv.entries.empty()) continue;
+    if (wv.entries.empty() || skip_w(wv)) continue;
     std::vector<int> a(wv.entries.size(), 2), b(wv.entries.size(), 1);
     for (auto& asg : {a, b}) {
       WriteOut wo = wv.write(asg, BARE);
@@ -441,7 +453,7 @@ static void run_c05x() {
       // without the sentinel: the message is exactly the table
       std::vector<uint8_t> bytes = refenc_bytes(version_sch(wv), version_val(wv, asg));
       for (auto& rv : g_versions) {
-        if (!rv.read) continue;
+        if (!rv.read || skip_r(rv)) continue;
         for (int rig = 0; rig < NRIG; rig++)
           for (size_t k = 0; k < bytes.size(); k++) {
             std::string cid = "C05|x|w" + std::to_string(wv.index) + "|r" + std::to_string(rv.index) + "|a" + astr(asg) + "|" + kRig[rig] + "|cut" + std::to_string(k);
@@ -484,7 +496,8 @@ static void run_c08() {
   mc.bytesub_max_len = A.thorough() ? 64 : 40;
   for (auto& wv : g_versions) {
     if (wv.index % stride != 0 && wv.entries.size() != (size_t)kPool) continue;
-    if (wv.entries.empty()) continue;
+    if (wv.entries.empty() || skip_w(wv)) continue;
+    if (A.only.find("|nested|") != std::string::npos) continue;
     std::vector<std::vector<int>> as;
     as.push_back(std::vector<int>(wv.entries.size(), 1));
     {
@@ -498,7 +511,7 @@ static void run_c08() {
       Val wval = version_val(wv, a);
       mutations(ws, wval, mc, [&](const Mut& m) {
         for (auto& rv : g_versions) {
-          if (!rv.read) continue;
+          if (!rv.read || skip_r(rv)) continue;
           if (rv.index % 5 != 0 && rv.index != wv.index) continue;  // reader versions: own version + every 5th of the shard
           Sch rs = version_sch(rv);
           DecResult ref = refdec_bytes(rs, m.bytes.data(), m.bytes.size());
@@ -552,7 +565,8 @@ static void run_c08() {
   }
   // ---- nested: the table under test sits in an entry of an enclosing table (BoundedReader inside BoundedReader)
   for (auto& wv : g_versions) {
-    if (!wv.ctx_capable || wv.entries.empty()) continue;
+    if (!wv.ctx_capable || wv.entries.empty() || skip_w(wv)) continue;
+    if (!A.only.empty() && A.only.find("|nested|") == std::string::npos) continue;
     std::vector<int> a(wv.entries.size());
     for (size_t i = 0; i < a.size(); i++) a[i] = 1 + (int)(i % 2);
     auto outer_sch = [&](const Version& v) {
@@ -576,7 +590,7 @@ static void run_c08() {
     mutations(ows, oval, mc2, [&](const Mut& m) {
       if (m.kind == MKind::PrefixSwap) return;
       for (auto& rv : g_versions) {
-        if (!rv.read || !rv.ctx_capable) continue;
+        if (!rv.read || !rv.ctx_capable || skip_r(rv)) continue;
         Sch rs = outer_sch(rv);
         DecResult ref = refdec_bytes(rs, m.bytes.data(), m.bytes.size());
         for (int rig : {R_PED, R_STR, R_BPED}) {
@@ -631,6 +645,7 @@ static void run_c08() {
 int main(int argc, char** argv) {
   A = Args::parse(argc, argv);
   R.only = A.only;
+  tl::parse_only();
   tl::register_versions();
   // negative control: the evolution oracle must flag an observation that keeps a stale entry
   {
